@@ -2,8 +2,12 @@
    Statements only; every proof is `exact <lemma from Proofs/RunnerProofs.v>`.
    Gen/GenPanic.v (CallOutput.is_panic_of: constants + decision chain) and Gen/GenRunTest.v
    (run_test: classification chain, stuck filter, --width cut, verdict chain, Exitcode) are
-   regenerated from /repo/src/halmos on every run. *)
+   regenerated from /repo/src/halmos on every run; so are Gen/GenCopies.v (what Path.branch / extend_path /
+   create_branch / run_message copy) and Gen/GenRefine.v (the rules of solve.refine), whose theorems
+   (proved for C20 / C11) are restated here because the composition below rests on them. *)
 From Coq Require Import ZArith List Bool.
+From HV Require Gen.GenCopies Spec.IsolationSpec Model.IsolationModel Proofs.IsolationProofs.
+From HV Require Base.SmtBV Model.SexpDefs Gen.GenRefine Spec.SmtQuerySpec Model.SmtTextModel Proofs.SmtTextProofs.
 From HV Require Import Gen.GenPanic Gen.GenRunTest Spec.PanicSpec Model.RunnerModel Proofs.RunnerProofs.
 Import ListNotations.
 Open Scope Z_scope.
@@ -109,6 +113,40 @@ Theorem C03_pass_sound :
          \/ o_fail (concrete i) = true).
 Proof. exact pass_sound_e2e. Qed.
 Print Assumptions C03_pass_sound.
+
+(* Two hypotheses of the composition, as far as they are decided by code regenerated on every run:
+
+   explore_complete needs the explored paths not to disturb each other: every per-path field of Path / Exec
+   (conditions, concretization -- the term -> constant substitution used by CALLDATALOAD and the size
+   candidates --, storage, ...) is copied at least as deep as it is later mutated in place, in all four
+   places where a state is derived from another (Path.branch, Path.extend_path, create_branch, run_message) *)
+Theorem C03_sibling_paths_do_not_share_mutable_state :
+  IsolationModel.table_ok IsolationSpec.exec_need GenCopies.create_branch_table = true /\
+  IsolationModel.table_ok IsolationSpec.exec_need GenCopies.run_message_table = true /\
+  IsolationModel.table_ok IsolationSpec.path_need GenCopies.path_branch_table = true /\
+  IsolationModel.table_ok IsolationSpec.path_need GenCopies.extend_path_table = true.
+Proof. exact IsolationProofs.tables_sufficient. Qed.
+Print Assumptions C03_sibling_paths_do_not_share_mutable_state.
+
+(* refine_exact (`forall q i, qsat q i -> qsat (refine q) i`): each rule of solve.refine replaces the
+   abstraction f_evm_<op>_N by a define-fun whose value, for every width and all operands, is the exact EVM
+   operation -- in particular 0 for a zero divisor in bvudiv / bvurem / bvsdiv / bvsrem -- so an input that
+   satisfies the abstract query still satisfies the refined one *)
+Theorem C03_refinement_is_the_evm_operation :
+  forall r op ns N x y,
+    In r GenRefine.refine_rules -> In op (SexpDefs.rule_ops r) -> SmtTextModel.parse_dec ns = Some N -> 0 < N ->
+    0 <= x < 2 ^ N -> 0 <= y < 2 ^ N ->
+    exists f, SmtQuerySpec.exact_op op = Some f /\
+      SmtTextModel.eval_define (SexpDefs.inst op ns (SexpDefs.rule_repl r)) [SmtTextModel.VBV N x; SmtTextModel.VBV N y]
+        = Some (SmtTextModel.VBV N (f N x y)).
+Proof. exact SmtTextProofs.refine_exact. Qed.
+Print Assumptions C03_refinement_is_the_evm_operation.
+
+Theorem C03_refinement_zero_divisor :
+  forall x, SmtQuerySpec.exact_mod 256 x 0 = 0 /\ SmtQuerySpec.exact_smod 256 x 0 = 0 /\
+            SmtQuerySpec.exact_div 256 x 0 = 0 /\ SmtQuerySpec.exact_sdiv 256 x 0 = 0.
+Proof. intros x. repeat split; reflexivity. Qed.
+Print Assumptions C03_refinement_zero_divisor.
 
 (* The caveat is real: dropping `panic_data_concrete`, the statement is FALSE of the faithful model.
    Witness: `if (y > 5) revert Panic(x)` -- the revert data carries the symbolic term x (not pinned to a
